@@ -11,7 +11,8 @@
                     L [A 4; A n; A room]  read event: n bytes accepted into a buffer of `room` bytes
    input  = L [A 2; A fixed; L labels; scenario]     recorded trace of a higher layer, see run_recorded
 *)
-From EN Require Import Lib.Bytes Lib.Sx Conc.SockReader Conc.BlockRecv Gen.ParamsC10.
+From EN Require Import Lib.Bytes Lib.Sx Frame.Framer Frame.ReadUntil Frame.BufReadUntil Stream.Consumer Stream.Endpoint
+                       Conc.SockReader Conc.BlockRecv Conc.SockEndpoint Gen.ParamsC10.
 
 Definition dec_label (x : sx) : option label :=
   match x with
@@ -73,6 +74,39 @@ Definition enc_bres (r : @bres bytes) : sx :=
   | BStuck => L [A 9]
   end%Z.
 
+(* mode 3: the composed receive loop (Conc/SockEndpoint.v) against AsyncStreamEndpoint.recv_packet / the server request
+   receivers: recorded trace with the receive calls replaced by L [A 8] = recv_packet() starts
+   input  = L [A 3; A buffered; A sizehint_or_bufsize; L elabels; scenario]   (separator 10, limit 64, identity codec;
+            scenario = L [A layer; ...]: layer 0 = endpoint (latching), 1 = server request receiver)
+   output = L results; result = L [A 0; B packet] | L [A 1] cancelled | L [A 2] end of stream | L [A 3; A e] | L [A 4; A err]
+                                | L [A 9] crash *)
+Definition dec_elabel (x : sx) : option elabel :=
+  match x with
+  | L [A 8%Z] => Some ERecvPacket
+  | _ => option_map ESock (dec_label x)
+  end.
+
+Definition enc_eres (r : eresult bytes) : sx :=
+  match r with
+  | EEvent (RPkt p) => L [A 0; B p]
+  | EEvent (RErr e) => L [A 4; A (match e with ELimit => 0 | EDecode => 1 | EConvert => 2 | EMissing => 3 | EExtra => 4 end)]
+  | EEvent _ => L [A 9]
+  | ECancelled => L [A 1]
+  | EAborted => L [A 2]
+  | EError e => L [A 3; A (errk_code e)]
+  | ECrash => L [A 9]
+  end%Z.
+
+Definition id_dec : decoder bytes := fun b => Some b.
+
+Definition run_endpoint (buffered latching : bool) (size : nat) (ls : list elabel) : sx :=
+  if buffered then
+    let F := bru_framer [10%N] 64 false id_dec in
+    L (map enc_eres (eres (erun (buf_smachine F size) true latching (einit (bcinit F)) ls)))
+  else
+    let F := ru_framer [10%N] 64 false id_dec in
+    L (map enc_eres (eres (erun (copy_smachine F size) false latching (einit (cinit F)) ls))).
+
 Definition run (i : sx) : sx :=
   match i with
   | L (A 0%Z :: fx :: lbls :: _) =>
@@ -83,6 +117,10 @@ Definition run (i : sx) : sx :=
       do fixed <- (match fx with A 2%Z => Some repo_fixed | _ => as_bool fx end);
       do ls <- as_list_of dec_label lbls;
       run_recorded fixed ls
+  | L (A 3%Z :: bf :: A size :: lbls :: L (A layer :: _) :: _) =>
+      do buffered <- as_bool bf;
+      do ls <- as_list_of dec_elabel lbls;
+      run_endpoint buffered (Z.eqb layer 0) (Z.to_nat size) ls
   | L (A 1%Z :: A size :: A bufsize :: calls :: evs :: _) =>
       do cs <- as_list_of as_bool calls;
       do es <- as_list_of dec_event evs;
